@@ -94,6 +94,9 @@ def build_all(variants=("plain",)):
             build_variant(outdir, "adfh-asan", "clang",
                           ["-O1", "-g", "-w", "-fsanitize=address,bounds", "-fno-sanitize-recover=all", "-fno-omit-frame-pointer"],
                           [], extra_defs=["-DADFH_SANITIZE"])
+        if "ofsseek" in variants and not os.path.exists(os.path.join(outdir, "adfh-ofsseek")):
+            # the library's own test switch: adfFileSeek always takes the OFS walk along the data blocks (adfFileSeekOFS_) on OFS volumes
+            build_variant(outdir, "adfh-ofsseek", "gcc", ["-O1", "-g", "-w", "-DTEST_OFS_SEEK"], [])
         if "vg" in variants and not os.path.exists(os.path.join(outdir, "adfh-vg")):
             build_variant(outdir, "adfh-vg", "gcc", ["-O0", "-g", "-w"], [])
         # prune old build dirs (keep the 3 most recent)
